@@ -10,8 +10,18 @@
 (when (= mode "codes")
   (for c 0 256
     (print "exit " c " " (sh (string "exit " c))))
-  (each s [1 2 3 6 9 10 12 14 15]
+  (each s [1 2 3 6 9 10 12 13 14 15]
     (print "signal " s " " (sh (string "kill -" s " $$"))))
+  # a child that writes to a closed pipe must die of SIGPIPE as it would under a shell (ignored dispositions are inherited)
+  (print "pipeline 0 " (sh "yes | head -1 >/dev/null"))
+  (let [p (os/spawn ["/bin/sh" "-c" "sleep 0.1; echo hi; echo hi; exit 7"] :p {:out :pipe})]
+    (ev/close (p :out))
+    (print "childpipe 0 ok " (os/proc-wait p)))
+  # net/address with exactly three arguments, whatever an earlier call left in the next stack slot
+  (print "netaddr truthy " (type (do (tuple 1 2 3 4 5 6 7 8) (net/address "127.0.0.1" "80" :datagram))))
+  (print "netaddr nil " (type (do (tuple nil nil nil nil nil nil nil nil) (net/address "127.0.0.1" "80" :datagram))))
+  (print "netaddr stream " (type (do (tuple 1 2 3 :x :y :z) (net/address "127.0.0.1" "80" :stream))))
+  (print "netaddr multi " (type (net/address "127.0.0.1" "80" :stream true)))
   # :x raises on non-zero
   (print "x 0 " (sh "exit 0" :px))
   (print "x 3 " (sh "exit 3" :px))
